@@ -35,7 +35,7 @@ func init() {
 		Doc: "the key that follows a literal edge in search (separator text + segment text) is built like the key that creates it in addPath",
 		Run: ruleKeyAgree})
 	register(&Rule{Name: "PATTERN-VERB", Floor: 6,
-		Doc: "addRule maps each HttpRule pattern case to the HTTP method of the same name and takes the template from the same oneof field; custom patterns use their upper-cased kind",
+		Doc: "addRule maps each HttpRule pattern case to the HTTP method of the same name and takes the template from the same oneof field; custom patterns use their upper-cased kind (decided on the key of the registering map update and the string stored into lexer.input, classified by the type assertion under which each value is chosen)",
 		Run: rulePatternVerb})
 	register(&Rule{Name: "VERB-KEY", Floor: 3,
 		Doc: "the per-verb leaf lookup is keyed by search's verb parameter, which serveHTTP feeds with r.Method or the WebSocket kind constant that health.AddHealthz registers",
